@@ -401,6 +401,9 @@ pub fn gen_doc(r: &mut Rng) -> Yaml {
                 "oa" if r.chance(70) => {
                     let n = r.below(4);
                     Yaml::Sequence((0..n).map(|_| {
+                        if r.chance(15) {
+                            return gen_doc_scalar(r);
+                        }
                         let mut o = Mapping::new();
                         for g in ["k", "p", "q", "a"] {
                             if r.chance(60) { o.insert(ys(g), gen_doc_scalar(r)); }
@@ -479,7 +482,7 @@ pub fn words64(r: &mut Rng, n: usize) -> Vec<String> {
 
 /// Returns (detection entries incl. condition, extra documents tailored to the shape).
 pub fn gen_special(r: &mut Rng) -> (Vec<(String, Yaml)>, Vec<Yaml>) {
-    let k = r.below(8);
+    let k = r.below(13);
     gen_special_kind(r, k)
 }
 
@@ -639,6 +642,116 @@ pub fn gen_special_kind(r: &mut Rng, kind: usize) -> (Vec<(String, Yaml)>, Vec<Y
                     d.insert(ys("s"), ys(*r.pick(&["a", "x", "b"])));
                 }
                 docs.push(Yaml::Mapping(d));
+            }
+            (det, docs)
+        }
+        8 => {
+            // a sequence identifier with ONE entry (a multi-key mapping or a key holding a list)
+            // under all()/of(): the quantifier counts the entry, not what is inside it
+            let entry = if r.chance(50) {
+                let mut m = Mapping::new();
+                m.insert(ys("s"), pat(r));
+                m.insert(ys(*r.pick(&["a", "n"])), pat(r));
+                if r.chance(30) {
+                    m.insert(ys("b"), pat(r));
+                }
+                Yaml::Mapping(m)
+            } else {
+                let n = 2 + r.below(2);
+                m1(*r.pick(&["s", "a"]), Yaml::Sequence((0..n).map(|_| pat(r)).collect()))
+            };
+            let cond = *r.pick(&["all(X)", "of(X, 1)", "of(X, 0)", "of(X, 2)", "X", "not all(X)", "not of(X, 1)"]);
+            let det = vec![("X".to_string(), Yaml::Sequence(vec![entry])), ("condition".to_string(), ys(cond))];
+            let mut docs = vec![];
+            for _ in 0..4 {
+                let mut d = Mapping::new();
+                for f in ["s", "a", "n", "b"] {
+                    if r.chance(75) {
+                        d.insert(ys(f), ys(*r.pick(&["a", "ab", "b", "x", "xab", "3"])));
+                    }
+                }
+                docs.push(Yaml::Mapping(d));
+            }
+            (det, docs)
+        }
+        9 => {
+            // a nested mapping against arrays that mix objects with other kinds, in every order
+            let f = *r.pick(&["oa", "o"]);
+            let inner = if r.chance(60) { m1("k", pat(r)) } else {
+                let mut m = Mapping::new();
+                m.insert(ys("k"), pat(r));
+                m.insert(ys("p"), pat(r));
+                Yaml::Mapping(m)
+            };
+            let cond = *r.pick(&["A", "not A", "A or B", "A and B"]);
+            let det = vec![("A".to_string(), m1(f, inner)), ("B".to_string(), m1("s", pat(r))), ("condition".to_string(), ys(cond))];
+            let mut docs = vec![];
+            for _ in 0..4 {
+                let n = 1 + r.below(4);
+                let elems: Vec<Yaml> = (0..n)
+                    .map(|_| match r.below(6) {
+                        0 => Yaml::Null,
+                        1 => Yaml::Number((3u64).into()),
+                        2 => ys("a"),
+                        3 => Yaml::Sequence(vec![m1("k", ys("a"))]),
+                        _ => {
+                            let mut o = Mapping::new();
+                            for g in ["k", "p"] {
+                                if r.chance(80) {
+                                    o.insert(ys(g), ys(*r.pick(&["a", "ab", "b", "x", "xab", "3"])));
+                                }
+                            }
+                            Yaml::Mapping(o)
+                        }
+                    })
+                    .collect();
+                let mut d = Mapping::new();
+                d.insert(ys(f), Yaml::Sequence(elems));
+                if r.chance(50) {
+                    d.insert(ys("s"), ys(*r.pick(&["a", "b", "x"])));
+                }
+                docs.push(Yaml::Mapping(d));
+            }
+            (det, docs)
+        }
+        10 => {
+            // str() casts against arrays and scalars of every kind
+            let v = match r.below(4) {
+                0 => Yaml::Number((*r.pick(&[443i64, 3, 1])).into()),
+                1 => ys(*r.pick(&["443", "3", "44*", "*43", "true", "2.5"])),
+                2 => Yaml::Sequence(vec![ys(*r.pick(&["443", "3"])), ys(*r.pick(&["80", "1*"]))]),
+                _ => Yaml::Bool(true),
+            };
+            let cond = *r.pick(&["A", "not A", "A or B"]);
+            let det = vec![("A".to_string(), m1("str(n)", v)), ("B".to_string(), m1("str(m)", ys(*r.pick(&["3", "443443", "3443"])))), ("condition".to_string(), ys(cond))];
+            let mut docs = vec![];
+            for _ in 0..5 {
+                let mut d = Mapping::new();
+                for f in ["n", "m"] {
+                    if r.chance(85) {
+                        d.insert(ys(f), match r.below(6) {
+                            0 => Yaml::Sequence(vec![Yaml::Number(80u64.into()), Yaml::Number(443u64.into()), Yaml::Number(8080u64.into())]),
+                            1 => Yaml::Sequence(vec![ys("x"), Yaml::Number(3u64.into()), Yaml::Bool(true)]),
+                            2 => Yaml::Number((*r.pick(&[443u64, 3, 1, 80])).into()),
+                            3 => Yaml::Bool(true),
+                            4 => Yaml::Number(2.5f64.into()),
+                            _ => ys(*r.pick(&["443", "3", "x"])),
+                        });
+                    }
+                }
+                docs.push(Yaml::Mapping(d));
+            }
+            (det, docs)
+        }
+        11 => {
+            // bare numbers beyond i64 in the rule, their two's-complement aliases in the document
+            let big = *r.pick(&[u64::MAX, 9223372036854775808u64, 18446744073709551614u64, 9223372036854775807u64]);
+            let key = *r.pick(&["n", "n", "int(n)", "str(n)", "flt(n)"]);
+            let v = if r.chance(70) { Yaml::Number(big.into()) } else { Yaml::Sequence(vec![Yaml::Number(big.into()), Yaml::Number(5u64.into())]) };
+            let det = vec![("A".to_string(), m1(key, v)), ("condition".to_string(), ys(*r.pick(&["A", "not A"])))];
+            let mut docs = vec![];
+            for x in [Yaml::Number((-1i64).into()), Yaml::Number(i64::MIN.into()), Yaml::Number(big.into()), Yaml::Number((-2i64).into()), ys("-1"), ys(&big.to_string()), Yaml::Number((big as f64).into()), Yaml::Number(5u64.into())] {
+                docs.push(m1("n", x));
             }
             (det, docs)
         }
